@@ -425,6 +425,13 @@ async fn fabitn(
         if k == i {
             return Ok((vec![], vec![]));
         }
+        // tap: the choice bits used towards peer k (identity unless armed)
+        #[cfg(feature = "__verif")]
+        let x = {
+            let mut bytes: Vec<u8> = x.iter().map(|b| *b as u8).collect();
+            crate::verif::tap_bytes("fabitn.x.peer", k, &mut bytes);
+            bytes.iter().map(|b| b & 1 != 0).collect::<Vec<bool>>()
+        };
         // TODO unfortunately we can't do pairwise OT sending/receiving in parallel due to limitations in the
         //  Channel implementation. If we execute
         // ```
